@@ -148,8 +148,10 @@ struct World {
   long next_gid = 0;
   // OptimisticLock: version ghosts of X guards (expected new version, lock index)
   std::vector<uint32_t> xnver;
+  std::vector<uint32_t> xover;  // version the guard reported when it was granted
   std::vector<long> xlk;
   uint32_t pend_nver = 0;
+  uint32_t pend_over = 0;
   long pend_lk = -1;
 
   explicit World(const Scenario &sc)
@@ -193,6 +195,7 @@ struct World {
     cg = std::vector<CompG>(nc);
     ghost.assign(kinds.size(), -1);
     xnver.assign(kinds.size(), 0);
+    xover.assign(kinds.size(), 0);
     xlk.assign(kinds.size(), -1);
   }
 
@@ -212,6 +215,7 @@ struct World {
     if constexpr (kIsOpt<Lock> && std::is_same_v<G, XG>) {
       if (g) {
         pend_nver = g.GetVersion() + 1U;
+        pend_over = g.GetVersion();
         pend_lk = lk;
         tok("XB" + std::to_string(lk) + ":" + hex(g.GetVersion()));
       }
@@ -254,6 +258,7 @@ struct World {
         d = std::move(tmp);
         ghost[dst] = gid;
         xnver[dst] = pend_nver;
+        xover[dst] = pend_over;
         xlk[dst] = pend_lk;
       } else {
         tok("BADKIND");
@@ -323,6 +328,7 @@ struct World {
             ghost[o.a] = ghost[o.b];
             ghost[o.b] = -1;
             xnver[o.a] = xnver[o.b];
+            xover[o.a] = xover[o.b];
             xlk[o.a] = xlk[o.b];
           } else {
             tok("BADKIND");
@@ -462,7 +468,11 @@ struct World {
         xnver[o.a] = static_cast<uint32_t>(o.val);
         tok(rk + "0");
       } else if (o.name == "xver") {
-        tok(rk + hex(x.at(idx[o.a]).GetVersion()));
+        // what the guard reports now / what it reported when it was granted (checked against the granting step's word
+        // by the monitor at that time): C09 demands the two are equal whatever SetVersion did in between
+        // (a guard variable that owns no grant - failed TryLockX, moved-from - has nothing to compare with)
+        const auto now_ver = x.at(idx[o.a]).GetVersion();
+        tok(rk + hex(now_ver) + "/" + hex(ghost[o.a] >= 0 ? xover[o.a] : now_ver));
       } else if (o.name == "gver") {
         uint32_t v = 0;
         if (kinds.at(o.a) == Kind::Opt) {
